@@ -115,17 +115,13 @@ def parse_substitutions(seed, tier):
                 got = parse_accepts(mtext)
                 if got is None:
                     continue
-                if i == hashpos:
-                    if len(sep_accept) < 3:
-                        sep_accept.append(mtext[hashpos - 6:])
-                    continue
                 failures.append({"what": "P2WSHSortedMulti.parse accepts a descriptor with one substituted character (position %d, %r -> %r)" % (i, orig, ch),
                                  "inputs": {"text": mtext, "original": text}, "violated": ["altering a single character of the body or checksum is detected; parse returned %r" % (got[:60],)]})
         samples.append({"descriptor": text[:80] + "...", "length": len(text)})
     return direct(evals, evals, failures, samples,
-                  "%d wallet descriptors %s: every position of 'body#checksum' x (%d random characters of the 95-character set + neighbouring / structural characters): parse must raise. "
-                  "Outside the clause (the separator is neither body nor checksum): substituting '#' itself is accepted and the trailing text ignored: %s"
-                  % (len(wallets), [(m, n) for m, n, _ in wallets], per_pos, sep_accept or "not observed") + truncated)
+                  "%d wallet descriptors %s: every position of 'body#checksum' x (%d random characters of the 95-character set + neighbouring / structural characters): parse must raise "
+                  "(the '#' separator position included: the property's quantifier says every position)"
+                  % (len(wallets), [(m, n) for m, n, _ in wallets], per_pos) + truncated)
 
 
 # ------------------------------------------------------------------------------------------- exhaustive table
